@@ -430,7 +430,7 @@ def _sweep_unary(rep, mo):
         "slice / zero / storage / kron",
         rule="matrices: every grid over {absent, explicit 0, 1, 2} for shapes <= 2x2; over {absent, 1, 2} for 1x3, 3x1; every sparsity "
              "pattern with distinct stored values for 2x3, 3x2, 3x3 (+ explicit-zero variant of every 4th 3x3 pattern); thorough adds "
-             "every 0/1/2-valued 2x3, 3x2, 3x3 matrix and the explicit-zero variant of every pattern; each in csr and csc with sorted and "
+             "every 0/1/2-valued 2x3, 3x2, 3x3 matrix and the explicit-zero variant of every pattern; each in csr and csc (quick: 3x3 patterns in csr, every other one also in csc) with sorted and "
              "(when a line holds > 1 entry) reversed indices (alternating for the 19683 3x3 0/1/2 matrices), coo for the format-agnostic "
              "functions; index sets: every tuple of line indices of length <= 3 incl. repeats and unsorted order (3-line matrices in "
              "quick and the 3x3 0/1/2 family: length <= 2 plus all permutations), every boolean mask, python int and np.int64 scalars; "
@@ -444,6 +444,8 @@ def _sweep_unary(rep, mo):
             stored = any(x is not None for row in grid for x in row)
             gkey = tuple(tuple(-1 if x is None else x for x in row) for row in grid)
             for fmt in ("csr", "csc"):
+                if quick and r == 3 and c == 3 and fmt == "csc" and gnum % 2:
+                    continue  # quick: every 3x3 pattern in csr, every other one also in csc (csc of P stores what csr of P^T stores)
                 nlines = r if fmt == "csr" else c
                 short = big or (quick and nlines == 3)
                 idx_sets = list(_index_tuples(nlines, 2 if short else 3))
@@ -572,7 +574,7 @@ def _sweep_binary(rep, mo):
         rule="A: every grid with 1-2 lines x 2 minor entries over {absent, 1, 2}, 3 lines over {absent, 1} (thorough: {absent, 1, 2}), plus "
              "3x3 patterns; B: every grid with k lines over {absent, explicit 0, 3} (k = 1) / {absent, 3} (k = 2; thorough also explicit 0) "
              "and k = 0 (no lines); merge: every ordered selection of k distinct lines of A; stack_mat / stack_diag: every pair (A, B) "
-             "with A, B of <= 2 lines x <= 2 minor entries over {absent, 1, 2} incl. B with no lines; csr and csc, sorted and reversed "
+             "with A, B of <= 2 lines x <= 2 minor entries over {absent, 1, 2} (quick: 2-line B over {absent, 2}) incl. B with no lines; csr and csc, sorted and reversed "
              "indices; nontrivial = B has a stored entry and A has a stored entry; distinct by (function, A, B, lines, storage)",
         bound="A <= 3 lines, B <= 2 lines, minor dimension <= 2 (3 for the seeded 3x3 cases)",
         exhaustive=True,
@@ -614,10 +616,13 @@ def _sweep_binary(rep, mo):
                                         _cmp_sparse(v, "merge_matrices", sig, inp, A, exp, fmt)
                 # stack_mat / stack_diag
                 small = {0: [()], 1: list(_grids(1, nm, (None, 1.0, 2.0))), 2: list(_grids(2, nm, (None, 1.0, 2.0)))}
+                small_b = dict(small)
+                if quick:
+                    small_b[2] = list(_grids(2, nm, (None, 2.0)))
                 for nla in (1, 2):
                     for ag in small[nla]:
                         for nlb in (0, 1, 2):
-                            for bg in small[nlb]:
+                            for bg in small_b[nlb]:
                                 gA, shA = grid_for(fmt, ag, nm)
                                 gB, shB = grid_for(fmt, bg, nm)
                                 A, dA, _ = _build_shape(gA, shA, fmt, rev)
@@ -762,3 +767,72 @@ def run(rep):
     _sweep_unary(rep, mo)
     _sweep_binary(rep, mo)
     _sweep_blocks(rep, mo)
+
+
+def replay(data):
+    """Re-evaluate the recorded input natively (functions with findings; others print the record)."""
+    import porepy as pp
+
+    mo = pp.matrix_operations
+    inp = data.get("inputs") or {}
+    fn = (data.get("obligation") or "").split(":")[0]
+
+    def grid(g):
+        return tuple(tuple(None if v is None else float(v) for v in row) for row in g)
+
+    try:
+        if fn == "rldecode":
+            got, exp = mo.rldecode(_arr(inp["A"]), _arr(inp["n"])), np.repeat(_arr(inp["A"]), _arr(inp["n"]))
+            print("rldecode", inp, "->", np.asarray(got).tolist(), "np.repeat ->", exp.tolist())
+            return not np.array_equal(got, exp)
+        if fn == "block_diag_index":
+            m, n = inp["m"], inp.get("n")
+            if n is None:
+                return False
+            R = mo.block_diag_index(_arr(m), _arr(n))
+            ei, ej, ro, co = [], [], 0, 0
+            for mk, nk in zip(m, n):
+                for c in range(nk):
+                    for r in range(mk):
+                        ei.append(ro + r)
+                        ej.append(co + c)
+                ro += mk
+                co += nk
+            print("block_diag_index", inp, "->", R, "expected", ei, ej)
+            return not (np.asarray(R[0]).tolist() == ei and np.asarray(R[1]).tolist() == ej)
+        if fn == "block_diag_matrix":
+            sz, vals = inp["sz"], np.array(inp["vals"], dtype=float)
+            R = mo.block_diag_matrix(vals.copy(), _arr(sz)).toarray()
+            blocks, p = [], 0
+            for s in sz:
+                blocks.append(vals[p:p + s * s].reshape(s, s))
+                p += s * s
+            exp = sl.block_diag(*[b for b in blocks if b.size]) if any(b.size for b in blocks) else np.zeros((0, 0))
+            print("block_diag_matrix", inp, "->", R.tolist(), "expected", exp.tolist())
+            return R.shape != exp.shape or not np.array_equal(R, exp)
+        if fn in ("merge_matrices", "stack_diag", "stack_mat"):
+            fmt, rev = inp["format"], inp["reversed_indices"]
+            gA, gB = grid(inp["A"]), grid(inp["B"])
+            A, dA, _ = _build(gA, fmt, rev)
+            B, dB, _ = _build_shape(gB, tuple(inp["shape_B"]), fmt, rev)
+            if fn == "merge_matrices":
+                sel = inp["lines"]
+                mo.merge_matrices(A, B, np.array(sel, dtype=np.int64), fmt)
+                exp = dA.copy()
+                if fmt == "csr":
+                    exp[list(sel), :] = dB
+                else:
+                    exp[:, list(sel)] = dB
+                R = A
+            elif fn == "stack_diag":
+                R, exp = mo.stack_diag(A, B), sl.block_diag(dA, dB)
+            else:
+                mo.stack_mat(A, B)
+                R, exp = A, (np.vstack((dA, dB)) if fmt == "csr" else np.hstack((dA, dB)))
+            print(fn, "->", R.toarray().tolist(), "shape", R.shape, "expected", exp.tolist(), "shape", exp.shape)
+            return R.shape != exp.shape or not np.array_equal(R.toarray(), exp)
+    except Exception as e:  # noqa
+        print("replay raised", type(e).__name__, e)
+        return True
+    print("no native replay for", fn, "- recorded inputs:", inp)
+    return False
